@@ -51,8 +51,8 @@ pub proof fn same_stack_default() ensures run_default_stack() == execute_default
 }} // verus!
 fn main() {{}}
 """
-    return gen, [Obl("C04.cli.same-stack-default", ["C04"], fn="cli.rs Commands::{Run,Execute}", desc="`run` and `execute` give the interpreter thread the same default stack size")], log
+    return gen, [Obl("C04.cli.same-stack-default", ["C04", "C18"], fn="cli.rs Commands::{Run,Execute}", desc="`run` and `execute` give the interpreter thread the same default stack size")], log
 
 
-UNITS = [VUnit("c04_cli", ["C04"], "run / execute: same default interpreter stack", build)]
+UNITS = [VUnit("c04_cli", ["C04", "C18"], "run / execute: same default interpreter stack", build)]
 UNITS[0].assumes = ["clap derives the option default from the attribute text (trusted); that main.rs passes the option to the thread builder in both modes is by inspection"]
